@@ -102,7 +102,7 @@ func CountCandidates(text string, legacy bool) (n int, unspecified bool) {
 // ReadListing reads a pMARS-style listing: optional START label, ORG START /
 // END START lines, signed fields, modifier implied by the '88 table when
 // absent. Fields are returned reduced mod M.
-func ReadListing(text string, M uint64) (code []g.Instruction, start int, err error) {
+func ReadListing(text string, M uint64, legacy bool) (code []g.Instruction, start int, err error) {
 	start = -1
 	sawDirective := false
 	for _, l := range strings.Split(text, "\n") {
@@ -114,6 +114,9 @@ func ReadListing(text string, M uint64) (code []g.Instruction, start int, err er
 		if len(f) == 2 && (f[0] == "ORG" || f[0] == "END") {
 			if f[1] != "START" {
 				return nil, 0, fmt.Errorf("directive without START: %q", l)
+			}
+			if (f[0] == "END") != legacy {
+				return nil, 0, fmt.Errorf("%s START in a listing of the other dialect", f[0])
 			}
 			sawDirective = true
 			continue
@@ -135,6 +138,12 @@ func ReadListing(text string, M uint64) (code []g.Instruction, start int, err er
 		}
 		ins.Op = op
 		hasMod := len(parts) == 2
+		if hasMod && legacy {
+			return nil, 0, fmt.Errorf("an ICWS'88 listing carries no modifiers: %q", l)
+		}
+		if !hasMod && !legacy {
+			return nil, 0, fmt.Errorf("an ICWS'94 listing line without a modifier: %q", l)
+		}
 		if hasMod {
 			md, ok := modNames[strings.ToLower(parts[1])]
 			if !ok {
